@@ -106,10 +106,12 @@ class InsecureHomeKitProtocol(asyncio.Protocol):
         self.transport = transport
 
     def connection_lost(self, exception: Exception) -> None:
-        if self.connection.protocol is self or self.connection.protocol is None:
+        if self.connection.protocol is self:
             # Only tell the connection when we are its current protocol: the
             # late loss of an abandoned connection must not tear down the
-            # connection that replaced it.
+            # connection that replaced it, and a connection the controller
+            # dropped itself (its protocol reference is already cleared) must
+            # not restart the connector.
             self.connection._connection_lost(exception)
         self._cancel_pending_requests()
 
